@@ -215,7 +215,15 @@ func local(v val.V) []val.V {
 	case val.Bytes:
 		return []val.V{val.S("x")}
 	case val.Pair:
-		return []val.V{val.P(v.E[1], v.E[0]), v.E[0]}
+		var out []val.V
+		// the other nesting of three components: (a, (b, c)) <-> ((a, b), c)
+		if r := v.E[1]; r.T == val.Pair {
+			out = append(out, val.P(val.P(v.E[0], r.E[0]), r.E[1]))
+		}
+		if l := v.E[0]; l.T == val.Pair {
+			out = append(out, val.P(l.E[0], val.P(l.E[1], v.E[1])))
+		}
+		return append(out, val.P(v.E[1], v.E[0]), v.E[0])
 	case val.List:
 		out := []val.V{val.L(append(append([]val.V{}, v.E...), val.S("z"))...), val.L(append(append([]val.V{}, v.E...), val.I(9))...)}
 		if len(v.E) > 0 {
@@ -308,6 +316,9 @@ func buildUniverse(types []TE) []val.V {
 	for _, s := range stock {
 		u.add(s)
 	}
+	// both nestings of the components of every tuple type and nested pair type: membership reads
+	// Tuple(A, B, C) as Pair(A, Pair(B, C)), so the left-nested ((a, b), c) must be there to tell
+	roundRobin(nestings(types))
 	// members of the sub-expressions, so that inner positions have their own witnesses
 	var inner [][]val.V
 	for _, te := range types {
@@ -322,6 +333,47 @@ func buildUniverse(types []TE) []val.V {
 	roundRobin(inner)
 	roundRobin(rw)
 	return u.vals
+}
+
+// nestings lists, for every tuple type and every pair type with a pair type as a component inside the
+// given types, the left-nested and the right-nested pairs built from members of the components.
+func nestings(types []TE) [][]val.V {
+	var out [][]val.V
+	left := func(vs []val.V) val.V {
+		res := val.P(vs[0], vs[1])
+		for _, v := range vs[2:] {
+			res = val.P(res, v)
+		}
+		return res
+	}
+	right := func(vs []val.V) val.V {
+		res := val.P(vs[len(vs)-2], vs[len(vs)-1])
+		for j := len(vs) - 3; j >= 0; j-- {
+			res = val.P(vs[j], res)
+		}
+		return res
+	}
+	for _, te := range types {
+		te.walk(func(x TE) {
+			var comps []TE
+			switch {
+			case x.K == kTuple:
+				comps = x.A
+			case x.K == kPair && x.A[1].K == kPair:
+				comps = []TE{x.A[0], x.A[1].A[0], x.A[1].A[1]}
+			case x.K == kPair && x.A[0].K == kPair:
+				comps = []TE{x.A[0].A[0], x.A[0].A[1], x.A[1]}
+			default:
+				return
+			}
+			lists := make([][]val.V, len(comps))
+			for i, c := range comps {
+				lists[i] = capV(cands(c), 2)
+			}
+			out = append(out, capV(vary(lists, left), 4), capV(vary(lists, right), 4))
+		})
+	}
+	return out
 }
 
 // subValues returns vs together with all values nested inside them (deduplicated, order stable).
